@@ -111,8 +111,12 @@ func c04Run(w *verifrt.World, tier Tier) *RunResult {
 	res.Sample = sc
 	res.Hash = hash64(text + fmt.Sprintf("%+v", *script))
 
+	// reference: canonical map order and a pool that never hands anything back
+	// (sync.Pool may drop whatever it holds at any time); the repetitions then
+	// see pools that recycle - every sync.Pool in the library, not only the
+	// transaction pool, is a scheduler decision
 	w.MapPolicy = verifrt.MapCanonical
-	w.PoolPolicy = verifrt.PoolLIFO
+	w.PoolPolicy = verifrt.PoolNew
 	h, err := buildWAF(text)
 	if err != nil {
 		if strings.HasPrefix(err.Error(), "PANIC") {
@@ -147,6 +151,7 @@ func c04Run(w *verifrt.World, tier Tier) *RunResult {
 			pol = verifrt.MapShuffle
 		}
 		w.MapPolicy = pol
+		w.PoolPolicy = []int{verifrt.PoolLIFO, verifrt.PoolLIFO, verifrt.PoolFIFO, verifrt.PoolLIFO, verifrt.PoolRandom}[i%5]
 		var got *Outcome
 		variant := "fresh"
 		if i%4 >= 2 {
